@@ -27,9 +27,9 @@ LEVEL_TEXT = ('Lean 4 theorems (Mathlib matrices), for every basis matrix B with
               'leaves a smaller sum of squares; permuting the requested modes permutes the coefficients. The executable model (basis from the '
               'C11 mode model, Cramer solution of the normal equations, compose, remove — wired through the REGENERATED call-site argument projections) is proved equal to these abstract objects; IsUnit det(BtB) is proved equivalent to linear independence of the sampled modes over ordered fields; remove leaves samples outside the mask untouched; a '
               'coefficient vector for zernike_compose with the coefficients at the (regenerated) positions of the requested modes composes '
-              'B·c; the two einsum contractions are REGENERATED from their subscript strings (Gen.fitContract / Gen.removeContract: the model\'s B·c is the generated contraction, and the generated fit contraction applied to the transposed pseudo-inverse is the abstract fit), the sample numbering of opd.ravel() and basis.reshape(k,-1) is regenerated with its order and proved to agree (C order on both sides); and two concrete Zernike bases over Q (one ray; a 2x2 array with cosine, sine and radial modes) satisfy the independence hypothesis. PARTIAL: that np.linalg.pinv(basis)·opd is the '
+              'B·c; the two einsum contractions are REGENERATED from their subscript strings (Gen.fitContract / Gen.removeContract: the model\'s B·c is the generated contraction, and the generated fit contraction applied to the transposed pseudo-inverse is the abstract fit), the sample numbering of opd.ravel() and basis.reshape(k,-1) is regenerated with its order and proved to agree (C order on both sides); and three concrete Zernike bases (two unnormalised over Q with an all-true mask; one with the DEFAULT normalisation over R on a partial mask: modes [1,2,3], a masked-out sample, det(BtB) = 36) (one ray; a 2x2 array with cosine, sine and radial modes) satisfy the independence hypothesis. PARTIAL: that np.linalg.pinv(basis)·opd is the '
               'normal-equation solution, and that the code builds exactly this basis, are checked by correspondence only.')
-LEVEL_NOTE = ('Trusted: Lean kernel and Mathlib; np.linalg.pinv(basis) = (BᵀB)⁻¹Bᵀ for full column rank and np.einsum contractions (compared on '
+LEVEL_NOTE = ('Sign convention inherited from C11: odd-j modes are -sin(|m| theta) (the code evaluates sin(m theta) with m < 0), opposite to Noll (1976); fit, compose and remove use the same basis, so every clause here is independent of it. Known finding KF-C12-nonfinite-outside-mask (open): NaN / inf OPD samples outside the mask make every coefficient NaN. Trusted: Lean kernel and Mathlib; np.linalg.pinv(basis) = (BᵀB)⁻¹Bᵀ for full column rank and np.einsum contractions (compared on '
               'every call with the Lean model run at Float; basis/compose values to 1e-8, fit/remove to 1e-10 x max(1, cond²) — the bound on the Float model\'s own rounding — while '
               'the property itself is judged on the library\'s results at 1e-12 x cond); the harness\'s numpy reference for conditioning and coordinates; float rounding; generator coverage (histories of '
               '6-9 calls, layouts, dtypes).')
